@@ -6,7 +6,8 @@
 (*                                                                         *)
 (* Output side: a session with cipher kind CK, FEC ratio (FD, FP) (FD = 0:   *)
 (* off) and session MTU turns core outputs (a size <= the core's MTU) and    *)
-(* out-of-band requests into datagrams; the FEC stage is Fec!EncodeOp.       *)
+(* out-of-band requests into datagrams; the FEC stage is Fec!EncodeOp; the   *)
+(* MTU may be changed by SetMtu between any two requests.                    *)
 (* Properties: C09 (size field, type by position, ids), C10 (length bound    *)
 (* including parity, OOB and AEAD overhead), C19 (OOB consumes no id).       *)
 (*                                                                         *)
@@ -19,9 +20,11 @@ EXTENDS Fec, FrameRouting
 
 \* CK (FrameRouting): "nil", "crc" (nonce 16 + CRC32 4), "aead" (nonce 12, tag 16)
 CONSTANTS FD, FP,      \* FEC ratio, FD = 0: no FEC
-          MTU,         \* session MTU as passed to SetMtu (already capped at 1500)
-          CoreSizes,   \* sizes the protocol core may hand to its output callback (a subset of 24..core MTU is chosen in the cfg)
-          OOBLens,     \* lengths offered to SendOOB
+          MTU,         \* initial session MTU (the library's default is 1400; scaled in the instances)
+          MTUs,        \* values passed to SetMtu while traffic flows
+          ParityGuard, \* TRUE: the repaired postProcess (a parity shard above the MTU in force is dropped); FALSE: the pinned code
+          CoreSizes(_),\* sizes the protocol core may hand to its output callback under core MTU m (a subset of 24..m, chosen in the cfg)
+          OOBLens(_),  \* lengths offered to SendOOB when GetOOBMaxSize() = m
           MaxOut       \* number of requests
 
 NonceSize == IF CK = "crc" THEN 16 ELSE IF CK = "aead" THEN 12 ELSE 0
@@ -29,45 +32,62 @@ CrcSize   == IF CK = "crc" THEN 4 ELSE 0
 TagSize   == IF CK = "aead" THEN 16 ELSE 0
 FecHdr    == IF FD > 0 THEN 8 ELSE 0                   \* seqid(4) type(2) size(2)
 HeaderSize == NonceSize + CrcSize + FecHdr             \* UDPSession.headerSize
-CoreMtu   == MTU - HeaderSize - TagSize                \* what SetMtu hands to the core
-OOBMax    == CoreMtu - 4                               \* GetOOBMaxSize
+MtuLimit  == 1500
+CoreMtuOf(m) == m - HeaderSize - TagSize               \* what SetMtu hands to the core
 
 VARIABLES enc,      \* the session's FEC encoder (Fec!NewEncoder)
-          wire,     \* datagrams emitted so far: [len, kind, seq, size, payload]
+          wire,     \* datagrams emitted so far: [len, kind, seq, size, payload, mtu (the session MTU in force at emission)]
           reqs,     \* number of requests served
-          lastoob   \* result of the last SendOOB: "none", "sent", "refused"
-fvars == <<enc, wire, reqs, lastoob>>
+          lastoob,  \* result of the last SendOOB: "none", "sent", "refused"
+          mtu       \* the session MTU in force (UDPSession.mtu / kcp.mtu + overheads)
+fvars == <<enc, wire, reqs, lastoob, mtu>>
+CoreMtu   == CoreMtuOf(mtu)
+OOBMax    == CoreMtu - 4                               \* GetOOBMaxSize
 
-FInit == enc = NewEncoder(IF FD > 0 THEN FD ELSE 1, IF FD > 0 THEN FP ELSE 1, 0) /\ wire = <<>> /\ reqs = 0 /\ lastoob = "none"
+FInit == /\ enc = NewEncoder(IF FD > 0 THEN FD ELSE 1, IF FD > 0 THEN FP ELSE 1, 0) /\ wire = <<>> /\ reqs = 0 /\ lastoob = "none"
+         /\ mtu = MTU
 
-(* a core output of s bytes: buffer of s + HeaderSize bytes; FEC data header + parity at group completion; then the cipher *)
+(* a core output of s bytes: buffer of s + HeaderSize bytes; FEC data header + parity at group completion; then the cipher. *)
+(* A parity shard is as long as the longest data shard of its group -- which may have been sent under a larger MTU.        *)
 CoreOut(s, contiguous) ==
   /\ reqs < MaxOut /\ s >= 24 /\ s <= CoreMtu
-  /\ reqs' = reqs + 1 /\ lastoob' = "none"
+  /\ reqs' = reqs + 1 /\ lastoob' = "none" /\ mtu' = mtu
   /\ IF FD = 0
-       THEN /\ wire' = Append(wire, [len |-> s + HeaderSize + TagSize, kind |-> "plain", seq |-> -1, size |-> 0, payload |-> s])
+       THEN /\ wire' = Append(wire, [len |-> s + HeaderSize + TagSize, kind |-> "plain", seq |-> -1, size |-> 0, payload |-> s, mtu |-> mtu])
             /\ enc' = enc
        ELSE LET r == EncodeOp(enc, s + HeaderSize, contiguous)     \* the encoder tracks len(b), the whole buffer
                 dg(p) == IF p.flag = "data"
-                           THEN [len |-> s + HeaderSize + TagSize, kind |-> "data", seq |-> p.seq, size |-> s + 2, payload |-> s]
-                           ELSE [len |-> p.size + TagSize, kind |-> "parity", seq |-> p.seq, size |-> 0, payload |-> p.size - (HeaderSize - 2)]
+                           THEN [len |-> s + HeaderSize + TagSize, kind |-> "data", seq |-> p.seq, size |-> s + 2, payload |-> s, mtu |-> mtu]
+                           ELSE [len |-> p.size + TagSize, kind |-> "parity", seq |-> p.seq, size |-> 0, payload |-> p.size - (HeaderSize - 2), mtu |-> mtu]
+                sent == SelectSeq(r.out, LAMBDA p : p.flag = "data" \/ ~ParityGuard \/ p.size + TagSize <= mtu)
             IN /\ enc' = r.e
-               /\ wire' = wire \o [i \in 1..Len(r.out) |-> dg(r.out[i])]
+               /\ wire' = wire \o [i \in 1..Len(sent) |-> dg(sent[i])]
 
 (* SendOOB(n bytes): refused without FEC or when conv(4) + n exceeds the core MTU; never touches the encoder's ids *)
 OOB(n) ==
-  /\ reqs < MaxOut /\ reqs' = reqs + 1
+  /\ reqs < MaxOut /\ reqs' = reqs + 1 /\ mtu' = mtu
   /\ IF FD = 0 \/ 4 + n > CoreMtu
        THEN lastoob' = "refused" /\ UNCHANGED <<enc, wire>>
        ELSE /\ lastoob' = "sent" /\ enc' = enc
-            /\ wire' = Append(wire, [len |-> 4 + n + HeaderSize + TagSize, kind |-> "oob", seq |-> -1, size |-> 4 + n + 2, payload |-> 4 + n])
+            /\ wire' = Append(wire, [len |-> 4 + n + HeaderSize + TagSize, kind |-> "oob", seq |-> -1, size |-> 4 + n + 2, payload |-> 4 + n, mtu |-> mtu])
 
-FNext == \/ \E s \in CoreSizes, c \in BOOLEAN : CoreOut(s, c)
-         \/ \E n \in OOBLens : OOB(n)
+(* UDPSession.SetMtu(m): capped at 1500; refused when the core would be left with no room for a segment header (KCP.SetMtu); *)
+(* the core may also refuse because a queued segment would no longer fit (KcpCore!SetMtuOp) -- the framing model has no queue, *)
+(* so that refusal is a nondeterministic alternative.  The FEC encoder is not told: a group may be open.                     *)
+SetMtu(m) ==
+  /\ reqs < MaxOut /\ reqs' = reqs + 1 /\ UNCHANGED <<enc, wire, lastoob>>
+  /\ LET m1 == IF m > MtuLimit THEN MtuLimit ELSE m IN
+     \/ CoreMtuOf(m1) > 24 /\ mtu' = m1
+     \/ mtu' = mtu
+
+FNext == \/ \E s \in CoreSizes(CoreMtu), c \in BOOLEAN : CoreOut(s, c)
+         \/ \E n \in OOBLens(OOBMax) : OOB(n)
+         \/ \E m \in MTUs : SetMtu(m)
 FSpec == FInit /\ [][FNext]_fvars
 
 (* ---- output-side properties ---- *)
-LenBound == \A i \in 1..Len(wire) : wire[i].len <= MTU /\ wire[i].len > 0                                  \* C10
+LenBound == \A i \in 1..Len(wire) : wire[i].len <= wire[i].mtu /\ wire[i].len > 0                          \* C10
+MtuAccepted == mtu <= MtuLimit /\ CoreMtu > 24                                                             \* C10: an accepted MTU leaves room for a segment
 SizeFieldRule == \A i \in 1..Len(wire) : wire[i].kind \in {"data", "oob"} => wire[i].size = wire[i].payload + 2   \* C09
 TypeMatchesPosition == \A i \in 1..Len(wire) :                                                              \* C09
    wire[i].kind \in {"data", "parity"} => ((wire[i].seq % (FD + FP) < FD) <=> wire[i].kind = "data")
@@ -75,6 +95,6 @@ IdsDistinct == \A i, j \in 1..Len(wire) : i # j /\ wire[i].seq >= 0 /\ wire[j].s
 ParityCoversGroup == \A i \in 1..Len(wire) : wire[i].kind = "parity" =>                                     \* C09/C10
    \A j \in 1..Len(wire) : wire[j].kind = "data" /\ wire[j].seq \div (FD + FP) = wire[i].seq \div (FD + FP) => wire[j].len <= wire[i].len
 OOBRefusalRule == lastoob = "refused" <=> (lastoob # "none" /\ lastoob # "sent")                            \* C19 (by construction)
-OOBConsumesNoSeqid == [][\A n \in OOBLens : OOB(n) => enc' = enc]_fvars                                      \* C19
+OOBConsumesNoSeqid == [][\A n \in OOBLens(OOBMax) : OOB(n) => enc' = enc]_fvars                              \* C19
 
 =============================================================================
